@@ -126,7 +126,7 @@ def write_replay(name, obj):
 # Miri exec mode: explicit operation lists, digest compared with native
 
 
-def export_lists(prop, seed, count, max_ops, max_variants, tag, only=None, variants=None, pars=None):
+def export_lists(prop, seed, count, max_ops, max_variants, tag, only=None, variants=None, pars=None, max_blocks=None):
     out = os.path.join(BUILD, "tmp", f"exp-{prop}-{tag}")
     if os.path.isdir(out):
         for f in os.listdir(out):
@@ -136,6 +136,8 @@ def export_lists(prop, seed, count, max_ops, max_variants, tag, only=None, varia
            "--variants", ",".join(variants or MIRI_VARIANTS), "--max-ops", str(max_ops), "--max-variants", str(max_variants), "--out", out]
     if pars:
         cmd += ["--pars", ",".join(str(x) for x in pars)]
+    if max_blocks:
+        cmd += ["--max-blocks", str(max_blocks)]
     p = subprocess.run(cmd, capture_output=True, text=True)
     if p.returncode != 0:
         raise RuntimeError("export failed: " + p.stderr[-400:])
@@ -224,13 +226,15 @@ def miri_exec_engine(prop, tier, seed):
     quick = tier == "quick"
     nlists = 8 if quick else 64
     targets = ["x86_64", "i686", "aarch64", "x86_64-ni"]
-    files = export_lists(prop, seed, nlists, 10 if quick else 16, 3, "exec")
+    # quick tier: random lists stay below 26 blocks per call (the deterministic grids carry the long batches)
+    mb = 26 if quick else None
+    files = export_lists(prop, seed, nlists, 10 if quick else 16, 3, "exec", max_blocks=mb)
     # aarch64: AES lists with detection granted (ARMv8-CE path, five intrinsics modelled) and denied (fixslice64 through
     # the aarch64 autodetect wrapper); Kuznyechik NEON in lists of its own (table start-up cost)
     # (batch lengths are drawn around the parallel widths of the aarch64 backends: ARMv8-CE 21/19/17, NEON 8)
     a64_aes = export_lists(prop, seed + 1, 3 if quick else 24, 8 if quick else 14, 3, "a64aes", only=["aes128", "aes192", "aes256"],
-                           variants=["aes_auto", "aes_auto_z", "aes_autoc_z", "aes_soft", "aes_alt_z"], pars=[21, 19, 17])
-    a64_kuz = export_lists(prop, seed + 2, 2 if quick else 12, 6 if quick else 10, 2, "a64kuz", only=["kuznyechik"], variants=["kuz", "kuz_z", "kuz_compact_z"], pars=[8])
+                           variants=["aes_auto", "aes_auto_z", "aes_autoc_z", "aes_soft", "aes_alt_z"], pars=[21, 19, 17], max_blocks=mb)
+    a64_kuz = export_lists(prop, seed + 2, 2 if quick else 12, 6 if quick else 10, 2, "a64kuz", only=["kuznyechik"], variants=["kuz", "kuz_z", "kuz_compact_z"], pars=[8], max_blocks=mb)
     # deterministic batch-shape grids for the backends that exist only on aarch64 (both directions, in place and
     # disjoint buffers, n = par, par+1, 2par+1 for ARMv8-CE 21/19/17 and NEON 8): C04/C03 only, one list per family
     a64_grid = []
@@ -238,12 +242,14 @@ def miri_exec_engine(prop, tier, seed):
         gdir = os.path.join(BUILD, "tmp", f"exp-{prop}-a64grid")
         os.makedirs(gdir, exist_ok=True)
         for fam, var, par in (("aes128", "aes_auto_z", 21), ("aes192", "aes_auto", 19), ("aes256", "aes_autoc_z", 17), ("kuznyechik", "kuz_z", 8)):
-            outp = os.path.join(gdir, f"{prop}-grid-{fam}.json")
-            pr = subprocess.run([NATIVE, "export-target-grid", "--prop", prop, "--seed", str(seed), "--family", fam, "--variant", var, "--par", str(par), "--out", outp] + (["--compact"] if quick else []),
-                                capture_output=True, text=True)
-            if pr.returncode != 0:
-                raise RuntimeError("export-target-grid failed: " + pr.stderr[-300:])
-            a64_grid.append(outp)
+            for d in ("enc", "dec"):
+                # one list per direction: the interpreter runs them in parallel
+                outp = os.path.join(gdir, f"{prop}-grid-{fam}-{d}.json")
+                pr = subprocess.run([NATIVE, "export-target-grid", "--prop", prop, "--seed", str(seed), "--family", fam, "--variant", var, "--par", str(par), "--dir", d, "--out", outp] + (["--compact"] if quick else []),
+                                    capture_output=True, text=True)
+                if pr.returncode != 0:
+                    raise RuntimeError("export-target-grid failed: " + pr.stderr[-300:])
+                a64_grid.append(outp)
     # C12: a deterministic route grid (every role by every route, each used once) for the union code of the AES
     # autodetect wrapper on each arm the interpreter can reach, and for Kuznyechik's halves
     route_jobs = []
